@@ -176,6 +176,9 @@ def replay(b: dict) -> dict:
             ret = bind.alpha(from_big(res) if big else res)
             if c05.snapshot(obj) != snap:
                 ret = {"kind": "operand-changed"}
+            elif res is not None and not isinstance(res, (int, float, np.number)) and c05.aliased(res, obj):
+                # "change no value": also later, when the result is worked on in place
+                ret = {"kind": "result-shares-storage"}
         except bind.Inexact as e:
             ret = {"kind": "inexact", "msg": str(e)[:200]}
             res = None
